@@ -785,7 +785,59 @@ def check_adapter_sizes(ctx: Ctx) -> None:
     ctx.ob("17.7-adapter-sizes", con, ok, "the sizes are computed from that mapping", node=use[0], stmt="compute_names_to_sizes(mapping)")
 
 
+def check_system_design_space(ctx: Ctx) -> None:
+    """17.8: a multi-level formulation optimises at system level exactly the variables no sub-scenario optimises: the
+    helper removes from the system design space the variables of EVERY sub-scenario (of any of them, not only those
+    common to all)."""
+    from gv.props.shared import literal_facts
+
+    f = ctx.index.method(BF, "BaseFormulation", "_remove_sub_scenario_dv_from_ds")
+    con = cname(BF, "BaseFormulation", "_remove_sub_scenario_dv_from_ds")
+    rm = [c for c in walk_body(f) if isinstance(c, ast.Call) and last_attr(c) == "remove_variable" and len(c.args) == 1]
+    ctx.need(len(rm) == 1, "_remove_sub_scenario_dv_from_ds: the removal from the system design space was not found")
+    call = rm[0]
+    var = dotted(call.args[0])
+    cfg = cfg_of(f)
+    st = rules.enclosing_stmt(f, call)
+    loops = [lp for lp in stmts_of(f) if isinstance(lp, ast.For) and any(x is st for x in ast.walk(lp))]
+
+    def text(e):
+        return " | ".join(sorted(norm_stmt(a_, 300) for a_ in (unfolded(f, e) or [e])))
+
+    def over_sub_scenarios(e) -> bool:
+        return "get_sub_scenarios()" in text(e)
+
+    facts = literal_facts(cfg, cfg.node_of(st))
+    quant = []  # (quantifier, polarity) of the conditions on the removed variable that range over the sub-scenarios
+    other = []
+    for txt, pol in facts.items():
+        try:
+            t_ = ast.parse(txt, mode="eval").body
+        except SyntaxError:
+            continue
+        if isinstance(t_, ast.Call) and dotted(t_.func) in ("any", "all") and t_.args and isinstance(t_.args[0], (ast.GeneratorExp, ast.ListComp)):
+            quant.append((dotted(t_.func), pol, t_))
+        elif isinstance(t_, ast.Compare) and len(t_.ops) == 1 and isinstance(t_.ops[0], (ast.In, ast.NotIn)) and dotted(t_.left) == var:
+            other.append((txt, pol == isinstance(t_.ops[0], ast.In)))
+        else:
+            other.append((txt, None))
+    nested = [lp for lp in loops if over_sub_scenarios(lp.iter)]
+    if nested:
+        # for each sub-scenario, for each of its variables: removed when it is in the system design space
+        inner = [lp for lp in loops if lp is not nested[0] and dotted(lp.target) == var and "design_space" in norm_stmt(lp.iter)]
+        ok = bool(inner) and not quant and all(pos is True for _, pos in other)
+        ctx.ob("17.8-system-design-space", con, ok, "every variable of every sub-scenario's design space is removed from the system design space when present there (no other condition)", node=call, slots={"conditions": [t for t, _ in other]})
+    else:
+        ctx.need(len(quant) == 1 and len(loops) >= 1, "_remove_sub_scenario_dv_from_ds: neither a loop over the sub-scenarios nor a quantified membership test was recognised")
+        q, pol, node_ = quant[0]
+        gen = node_.args[0]
+        member = isinstance(gen.elt, ast.Compare) and isinstance(gen.elt.ops[0], ast.In) and dotted(gen.elt.left) == var
+        ok = member and ((q == "any" and pol) or False)
+        ctx.ob("17.8-system-design-space", con, ok, f"a variable is removed from the system design space when ANY sub-scenario optimises it; found `{'not ' if not pol else ''}{norm_stmt(node_, 80)}`: with `all`, variables local to one sub-scenario stay at system level although the sub-optimisations overwrite them", node=call, stmt="removed iff in any sub-scenario's design space")
+
+
 def run(ctx: Ctx) -> None:
+    check_system_design_space(ctx)
     check_disciplinary_design_space(ctx)
     check_adapter_sizes(ctx)
     check_equilibrium(ctx)
